@@ -31,6 +31,7 @@ import DSymVerif.Proofs.FundGroupIso
 import DSymVerif.Proofs.FundGroupTree
 import DSymVerif.Proofs.FundGroupLetters
 import DSymVerif.Proofs.FundGroupSpecMain
+import DSymVerif.Proofs.FundGroupSpecGlue
 import DSymVerif.Spec.C09
 
 namespace DSymVerif.C09
@@ -394,5 +395,25 @@ theorem spec_compares_isomorphic_groups (ds : DSymData) (hs : ValidSym ds) (hdim
 example : ValidSym (DSymData.ofSimple ex2) ∧ 1 ≤ (DSymData.ofSimple ex2).dim ∧
     1 ≤ (DSymData.ofSimple ex2).size ∧ (DSymData.ofSimple ex2).view.isConnected = true :=
   ⟨ex2_validSym, by decide, by decide, by decide +kernel⟩
+
+/-! ## 12. the graph the driver hands to the Spec is the graph of the theorems -/
+
+/-- **the driver's Spec view is the model's symbol.**  The driver evaluates every Spec clause on
+    `specG r`, the raw transmitted tables, and runs the model on `r.toSym`.  Whenever the driver's
+    domain clause `inDomain r` holds (`SpecC03.inDomain`, cited from `C03.decode_raw_valid`), the
+    decoder returns a valid connected symbol `ds` with `dim ≥ 1` — so every theorem of this file
+    applies to it — and `specG r` has the size, the dimension, every operation entry and every
+    adjacent branching number of `gOf ds` (`C03.agrees_tables`), the graph the theorems of
+    sections 9–11 are stated about. -/
+theorem driver_graph_is_model_graph (r : Proto.RawSym) (h : DrvC09View.inDomain r = true) :
+    ∃ ds, r.toSym = .ok ds ∧ ValidSym ds ∧ 1 ≤ ds.size ∧ 1 ≤ ds.dim ∧
+      ds.view.isConnected = true ∧
+      (DrvC09View.specG r).size = (gOf ds).size ∧ (DrvC09View.specG r).dim = (gOf ds).dim ∧
+      (∀ i d, i ≤ ds.dim → 1 ≤ d → d ≤ ds.size → (DrvC09View.specG r).op i d = (gOf ds).op i d) ∧
+      (∀ i d, i < ds.dim → 1 ≤ d → d ≤ ds.size → (DrvC09View.specG r).v i d = (gOf ds).v i d) :=
+  specG_agrees r h
+
+example : ∃ r : Proto.RawSym, DrvC09View.inDomain r = true :=
+  ⟨{ size := 1, dim := 2, op := #[1, 1, 1], v := #[0, 0] }, by decide⟩
 
 end DSymVerif.C09
